@@ -110,6 +110,12 @@ var lineBodies = []string{"a", "", "\x00b\xff", `{"k":1}`, strings.Repeat("z", 4
 
 func lineOf(inst, i int) string {
 	body := lineBodies[i%len(lineBodies)]
+	switch body {
+	case "<bare>": // the empty line: nothing but the terminator (the shortest newline-terminated line there is)
+		return "\n"
+	case "<one>": // one byte and the terminator
+		return string(rune('a'+i%26)) + "\n"
+	}
 	if strings.HasSuffix(body, "\r") { // a line ending in CR LF
 		return fmt.Sprintf("%s#%d.%d\r\n", body[:len(body)-1], inst, i)
 	}
@@ -232,11 +238,11 @@ func main() {
 			r.Count("level_sweep_histories", r.Evals-before)
 		}
 		// unusual line contents: a line ending in CR LF, a lone CR inside, a 70000-byte line (beyond any 64 KiB
-		// scanner or pooling limit), an empty line - all histories of 4 operations for three level pairs
+		// scanner or pooling limit), a line with nothing before its marker, the bare "\\n" and a one-byte line - all histories of 4 operations for three level pairs
 		{
 			before := r.Evals
 			saved := lineBodies
-			lineBodies = []string{"cr\r", strings.Repeat("B", 70000), "in\rside", "", "tab\tx\v\f"}
+			lineBodies = []string{"cr\r", "<bare>", strings.Repeat("B", 70000), "<one>", "in\rside", "", "tab\tx\v\f"}
 			L3 := 4
 			for _, pair := range [][2]zerolog.Level{{0, 3}, {3, 1}, {1, 1}} {
 				idx := make([]int, L3)
